@@ -202,6 +202,20 @@ func (rb RaceBlock) InCoercion() bool {
 	return true
 }
 
+// InHook reports whether one of the two racing accesses is made by a function of our own build-tagged hooks
+// (verif_hooks.go): such a race is the harness's, not the code's.
+func (rb RaceBlock) InHook() bool {
+	for i, st := range rb.Stacks {
+		if i >= 2 || len(st) == 0 {
+			continue
+		}
+		if strings.Contains(st[0], ".NewVerifVault") || strings.Contains(st[0], ".(*VerifVault).") || strings.Contains(st[0], ".(*verifClient).") {
+			return true
+		}
+	}
+	return false
+}
+
 // InnerCoercionFuncs returns, per access stack, the innermost coercion function (shortened).
 func (rb RaceBlock) InnerCoercionFuncs() []string {
 	var out []string
